@@ -287,9 +287,9 @@ class PyRng:
 
 
 TREAP_TIERS = {
-    "C03": {"quick": 300_000, "thorough": 10_000_000},
+    "C03": {"quick": 1_000_000, "thorough": 20_000_000},
     # (controlled-priority runs watched for heap order, real-priority process runs, of which at n = 10^6)
-    "C16": {"quick": (100_000, 60, 0), "thorough": (2_000_000, 600, 12)},
+    "C16": {"quick": (200_000, 120, 0), "thorough": (4_000_000, 900, 20)},
 }
 
 N_HISTORIES = 10
@@ -555,6 +555,294 @@ def check_c16(tier, seed):
 
 
 # ---------------------------------------------------------------------------------------------
+# mirisched (C17)
+
+C17_TIERS = {"quick": 160, "thorough": 4096}
+MIRI_RATES = ["0.01", "0.1", "0.3", "0.6"]
+
+
+def miri_env(seed, rate):
+    env = dict(ENV)
+    env["MIRIFLAGS"] = "-Zmiri-seed=%d -Zmiri-preemption-rate=%s" % (seed, rate)
+    return env
+
+
+def miri_args(cfg, mode="concurrent"):
+    a = ["--mode", mode, "--threads", str(cfg["threads"]), "--hseed", str(cfg["hseed"]), "--ops", str(cfg["ops"])]
+    if cfg.get("stamped"):
+        a.append("--stamped")
+    if cfg.get("main_participates") and mode == "concurrent":
+        a.append("--main-participates")
+    return a
+
+
+def miri_run(cfg):
+    cmd = ["cargo", "+nightly", "miri", "run", "--offline", "-q", "--manifest-path", os.path.join(SIM, "Cargo.toml"), "-p", "mirisched", "--"] + miri_args(cfg)
+    rc, so, se = run(cmd, env=miri_env(cfg["miri_seed"], cfg["rate"]), cwd=SIM, timeout=1800)
+    return rc, so, se
+
+
+def parse_threads(out):
+    prio, func, stamps, single = {}, {}, {}, None
+    for line in out.splitlines():
+        parts = line.split()
+        if len(parts) >= 2 and parts[0].startswith("T") and parts[0][1:].isdigit():
+            tid = int(parts[0][1:])
+            if parts[1] == "PRIO":
+                prio[tid] = [int(x) for x in parts[2:]]
+            elif parts[1] == "FUNC":
+                func[tid] = " ".join(parts[2:])
+            elif parts[1] == "STAMPS":
+                stamps[tid] = [int(x) for x in parts[2:]]
+        elif parts and parts[0] == "SINGLE":
+            single = [int(x) for x in parts[1:]]
+    return prio, func, stamps, single
+
+
+class SeqRef:
+    """Sequential reference executions of the same program, produced by the real code natively."""
+
+    def __init__(self, binary):
+        self.binary = binary
+        self.cache = {}
+
+    def native(self, cfg, mode, extra=()):
+        key = (cfg["threads"], cfg["hseed"], cfg["ops"], mode, tuple(extra))
+        if key not in self.cache:
+            c = dict(cfg, stamped=False)
+            rc, so, se = run([self.binary] + miri_args(c, mode) + list(extra), timeout=300)
+            if rc != 0:
+                raise HarnessError("native reference run failed (%s): %s" % (mode, se[-500:]))
+            self.cache[key] = parse_threads(so)
+        return self.cache[key]
+
+    def reproducible(self, cfg):
+        a = run([self.binary] + miri_args(dict(cfg, stamped=False), "serial"), timeout=300)[1]
+        b = run([self.binary] + miri_args(dict(cfg, stamped=False), "serial"), timeout=300)[1]
+        return a == b
+
+    def producible(self, cfg, prio):
+        """Is there a sequential execution of the same program (real code) that gives every
+        thread exactly the priority sequence it observed?  Returns (ok, how / why-not)."""
+        import itertools
+
+        T = cfg["threads"]
+        for perm in itertools.permutations(range(T)):
+            p, _, _, _ = self.native(cfg, "serial", ("--perm", ",".join(map(str, perm))))
+            if p == prio:
+                return True, "serial order %s" % (list(perm),)
+        total = sum(len(v) for v in prio.values())
+        _, _, _, single = self.native(cfg, "single", ("--draws", str(total + 8)))
+        pos = {}
+        for i, v in enumerate(single or []):
+            pos.setdefault(v, []).append(i)
+        order = {}
+        used = set()
+        for tid in sorted(prio):
+            last = -1
+            for v in prio[tid]:
+                cands = [i for i in pos.get(v, []) if i not in used and i > last]
+                if not cands:
+                    dup = [i for i in pos.get(v, []) if i in used]
+                    why = "duplicated: another draw already received stream position %d" % dup[0] if dup else ("out of order within the thread" if v in pos else "not a value of the sequential stream at all")
+                    return False, "thread %d observed priority %d which no sequential execution hands out here (%s)" % (tid, v, why)
+                used.add(cands[0])
+                last = cands[0]
+                order[cands[0]] = tid
+        if sorted(order) != list(range(total)):
+            missing = [i for i in range(total) if i not in order]
+            return False, "draws at stream positions %s were lost (the %d draws do not form a prefix of the sequential stream)" % (missing[:6], total)
+        seq = [order[i] for i in range(total)]
+        p, _, _, _ = self.native(cfg, "baton", ("--order", ",".join(map(str, seq))))
+        if p == prio:
+            return True, "interleaved order %s" % seq
+        return False, "the sequential execution with creation order %s gives %s, not the observed %s" % (seq, p, prio)
+
+
+def c17_matrix(seed, count):
+    rng = PyRng(seed ^ 0xC17)
+    cfgs = []
+    for i in range(count):
+        cfgs.append({
+            "miri_seed": rng.below(1 << 31),
+            "rate": MIRI_RATES[i % 4],
+            "threads": 3 if rng.below(3) == 0 else 2,
+            "hseed": rng.below(1 << 40),
+            "ops": 5 + rng.below(10),
+            "stamped": i % 2 == 0,
+            "main_participates": rng.below(4) == 0,
+        })
+    return cfgs
+
+
+def c17_judge(cfg, rc, so, se, ref, check_stream):
+    """Returns (class, detail) or None."""
+    if rc != 0:
+        if "Undefined Behavior" in se:
+            m = re.search(r"error: Undefined Behavior: ([^\n]*)", se)
+            what = m.group(1) if m else "undefined behaviour"
+            kind = "data-race" if "Data race" in what else "ub"
+            where = re.findall(r"at (/repo/[^\s:]+:\d+)", se)
+            return ("treapconc/%s/" % kind, "Miri (seed %d, preemption rate %s): %s%s" % (cfg["miri_seed"], cfg["rate"], what[:300], (" [in " + ", ".join(where[:3]) + "]") if where else ""))
+        if "panicked" in se or "deadlock" in se:
+            return ("treapconc/panic/", "program failed under Miri: " + se[-400:])
+        raise HarnessError("miri run failed for a reason that is not a finding: " + se[-1500:])
+    prio, func, stamps, _ = parse_threads(so)
+    if len(prio) != cfg["threads"]:
+        raise HarnessError("unexpected output of mirisched: " + so[-500:])
+    for tid, f in sorted(func.items()):
+        if not f.startswith("ok"):
+            return ("treapconc/functional/", "thread %d's treap results differ from the same operations run alone: %s" % (tid, f))
+    if check_stream:
+        ok, how = ref.producible(cfg, prio)
+        if not ok:
+            return ("treapconc/stream/", "no sequential execution produces the observed per-thread priority streams: " + how)
+    return None
+
+
+def c17_record(cfg, cls, detail):
+    return {"property": "C17", "violation": {"class": cls, "detail": detail}, "record": dict(cfg, engine="mirisched")}
+
+
+def miri_replay(path):
+    rec = json.load(open(path))
+    cfg = rec["record"]
+    native, _ = cargo_build("mirisched", "sim-rel")
+    ref = SeqRef(native)
+    rc, so, se = miri_run(cfg)
+    try:
+        verdict = c17_judge(cfg, rc, so, se, ref, ref.reproducible(cfg))
+    except HarnessError as e:
+        return 2, str(e)
+    if verdict:
+        return 1, so + "\nREPLAY-VIOLATION class=%s detail=%s\n" % verdict
+    return 0, so + "\nREPLAY-CLEAN\n"
+
+
+def c17_minimise(cfg, cls, ref, check_stream):
+    """Smaller programs shift Miri's schedule, so each candidate re-searches a small seed window."""
+    best = dict(cfg)
+
+    def fails(c):
+        for ds in range(6):
+            cc = dict(c, miri_seed=c["miri_seed"] + ds, rate="0.3" if ds else c["rate"])
+            rc, so, se = miri_run(cc)
+            try:
+                v = c17_judge(cc, rc, so, se, ref, check_stream)
+            except HarnessError:
+                return None
+            if v and v[0] == cls:
+                return cc
+        return None
+
+    for change in ({"main_participates": False}, {"threads": 2}, {"stamped": False}):
+        if any(best.get(k) != v for k, v in change.items()):
+            c = fails(dict(best, **change))
+            if c:
+                best = c
+    while best["ops"] > 1:
+        c = fails(dict(best, ops=best["ops"] // 2))
+        if not c:
+            break
+        best = c
+    return best
+
+
+def check_c17(tier, seed):
+    from concurrent.futures import ThreadPoolExecutor
+
+    ensure_dirs()
+    t0 = time.time()
+    count = C17_TIERS[tier]
+    native, build_s = cargo_build("mirisched", "sim-rel")
+    ref = SeqRef(native)
+    # warm-up: builds the program for Miri (and the Miri sysroot if a fresh restore lacks it)
+    tb = time.time()
+    warm = {"miri_seed": 0, "rate": "0.1", "threads": 2, "hseed": 1, "ops": 2}
+    rc, so, se = miri_run(warm)
+    if rc != 0 and "Undefined Behavior" not in se:
+        sys.stderr.write(se[-3000:])
+        raise HarnessError("cannot run the program under Miri")
+    build_s += time.time() - tb
+
+    cfgs = c17_matrix(seed, count)
+    reproducible = ref.reproducible(cfgs[0])
+    if not reproducible:
+        log("note: the sequential reference is not reproducible across processes; the stream clause is switched off for this run")
+    t1 = time.time()
+    with ThreadPoolExecutor(max_workers=workers()) as ex:
+        outs = list(ex.map(miri_run, cfgs))
+    miri_wall = time.time() - t1
+
+    found = []
+    seen = set()
+    interleavings = set()
+    how_counts = {}
+    draws = 0
+    samples = []
+    for cfg, (rc, so, se) in zip(cfgs, outs):
+        verdict = c17_judge(cfg, rc, so, se, ref, reproducible)
+        if rc == 0:
+            prio, func, stamps, _ = parse_threads(so)
+            draws += sum(len(v) for v in prio.values())
+            if stamps:
+                seq = tuple(t for _, t in sorted((s, tid) for tid, ss in stamps.items() for s in ss))
+                switches = sum(1 for a, b in zip(seq, seq[1:]) if a != b)
+                if switches >= 2:
+                    interleavings.add(seq)
+                if len(samples) < 3 and switches >= 2:
+                    samples.append({"config": cfg, "creation_order_by_thread": list(seq), "priorities": {str(k): v for k, v in prio.items()}})
+            if reproducible and not verdict:
+                ok, how = ref.producible(cfg, prio)
+                k = how.split(" [")[0].split(" order")[0]
+                how_counts[k] = how_counts.get(k, 0) + 1
+        if verdict and verdict[0] not in seen:
+            seen.add(verdict[0])
+            small = c17_minimise(cfg, verdict[0], ref, reproducible)
+            rc2, so2, se2 = miri_run(small)
+            v2 = c17_judge(small, rc2, so2, se2, ref, reproducible) or verdict
+            path = os.path.join(REPLAYS, "C17-%d-%d.json" % (seed, small["miri_seed"]))
+            with open(path, "w") as f:
+                json.dump(c17_record(small, v2[0], v2[1]), f, indent=1)
+            found.append({"class": v2[0], "detail": v2[1], "replay": path})
+
+    real = settle("C17", found, miri_replay)
+    wall = time.time() - t0
+    if not samples:
+        samples = [{"config": cfgs[0], "note": "no stamped run with >= 2 thread switches completed (every run ended in a Miri error)"}]
+    cov = {
+        "evaluations": len(cfgs),
+        "distinct_nontrivial": len(interleavings),
+        "exhaustive": False,
+        "rule": (
+            "A run = one execution of the multi-threaded program sim/mirisched under Miri with (-Zmiri-seed, -Zmiri-preemption-rate in {0.01,0.1,0.3,0.6}, 2-3 threads, "
+            "optionally the main thread as participant, per-thread history of 5-14 node creations / treap operations on thread-owned treaps). One Miri seed = one exactly repeatable schedule. "
+            "distinct_nontrivial = number of distinct global node-creation orders (sequence of thread ids sorted by a Relaxed stamp) with at least 2 thread switches, among the stamped half of the runs."
+        ),
+        "miri_executions": len(cfgs),
+        "miri_executions_per_hour": int(len(cfgs) / max(miri_wall, 1e-9) * 3600),
+        "priority_draws_observed": draws,
+        "sequential_reference_reproducible": reproducible,
+        "observed_streams_explained_by": how_counts,
+        "simulated_runs": len(cfgs),
+        "seeds": "Miri seeds and programs drawn from a splitmix64 stream seeded with VERIF_SEED ^ 0xC17; VERIF_SEED=%d" % seed,
+        "simulated_time": "not applicable: no clock in the mechanism; Miri's scheduler decides pre-emption at basic-block granularity",
+        "faults_fired": {"preemptive_thread_switches_between_creations": sum(sum(1 for a, b in zip(s, s[1:]) if a != b) for s in interleavings)},
+        "real_vs_stub": {"real": ["rlib_treap (unmodified, feature verif OFF)", "rlib_rand::Rng", "std threads as interpreted by Miri (scheduler, data-race detector, weak-memory emulation)"], "stub": ["the item type (id + size)"]},
+        "samples": samples,
+        "build_s": round(build_s, 2),
+    }
+    assumptions = [
+        "Miri's model of the Rust memory model and the reach of its seeded scheduler at the chosen pre-emption rates",
+        "sequential reference streams are produced natively by the same program (real library code) with node creations serialised by a baton",
+        "sampling of schedules, not proof",
+    ]
+    write_evidence("C17", tier, seed, "exploration", cov, assumptions, wall, real)
+    log("C17 %s: %d Miri executions, %d distinct interleavings, %d violating classes (%d not known) in %.1fs" % (tier, len(cfgs), len(interleavings), len(found), real, wall))
+    return 1 if real else 0
+
+
+# ---------------------------------------------------------------------------------------------
 
 def cmd_replay(path):
     if not os.path.exists(path):
@@ -565,6 +853,8 @@ def cmd_replay(path):
         rc, out = iosim_replay(path)
     elif engine.startswith("treapsim"):
         rc, out = treap_replay(path)
+    elif engine == "mirisched":
+        rc, out = miri_replay(path)
     else:
         raise HarnessError("unknown engine in replay file: %r" % engine)
     sys.stdout.write(out)
@@ -578,6 +868,7 @@ CHECKS = {
     "C09": lambda tier, seed: check_iosim("C09", tier, seed),
     "C03": check_c03,
     "C16": check_c16,
+    "C17": check_c17,
 }
 
 
@@ -585,6 +876,15 @@ def cmd_setup():
     for profile in ("sim-rel", "sim-dbg"):
         cargo_build("iosim", profile)
         cargo_build("treapsim", profile)
+    cargo_build("mirisched", "sim-rel")
+    rc, so, se = run(["cargo", "+nightly", "miri", "setup", "--offline"], cwd=SIM, timeout=3600)
+    if rc != 0:
+        sys.stderr.write(se[-3000:])
+        raise HarnessError("cargo miri setup failed")
+    rc, so, se = miri_run({"miri_seed": 0, "rate": "0.1", "threads": 2, "hseed": 1, "ops": 2})
+    if rc != 0 and "Undefined Behavior" not in se:
+        sys.stderr.write(se[-3000:])
+        raise HarnessError("cannot run the program under Miri")
     log("setup: simulators built")
     return 0
 
